@@ -3,7 +3,7 @@
 T=${1:-quick}
 cd "$(dirname "$0")/.."
 mkdir -p runlogs
-for i in 01 02 03 04 05 06 07 08 09 10 11 12 13 14 15 16 17 18 19 20; do
+for i in ${CHECKS:-01 02 03 04 05 06 07 08 09 10 11 12 13 14 15 16 17 18 19 20}; do
   s=$(date +%s)
   ./check C$i $T > runlogs/${T}_C$i.log 2>&1; rc=$?
   e=$(date +%s)
